@@ -390,6 +390,7 @@ class Recorded:
 def run_routine(name, script, cfg, strip_targets=False):
     """One real train_* run; boundaries = [(label, {module: snapshot})]."""
     drivers._register_logger()
+    cfg = dict(cfg)  # drivers.build keeps private entries in the dict it is given
     env = drivers.make_env(name, script, cfg)
     patch = contextlib.nullcontext()
     if strip_targets:
@@ -659,6 +660,7 @@ def created_work(item, col):
             if S.aliases(r.mods[src], getattr(res, tattr)):
                 col.violation(SIG.format(entry, K_CREATED_SHARE), dict(detail0, target=tattr + "(checkpoint)", online=src))
     col.outcome("created_target_runs")
+    col.sample(dict(part="created", routine=entry, learning=item["learning"], pairs=[list(p) for p in pairs]))
 
 
 # =====================================================================================================
@@ -694,7 +696,10 @@ def _item(name, script, cfg, sample=False):
     g = int(cfg.get("global_step") or 0)
     cfg["total_timesteps"] = g + len(script)
     cfg["env_horizon"] = len(script) + 2
-    return dict(name=_name(name, script, cfg), part="cadence", routine=name, script=script, cfg=cfg, sample=sample)
+    # one or two plain configurations per routine are written into the evidence as samples
+    plain = not any(cfg.get(k) for k in ("global_step", "gradient_steps")) and cfg.get("update_frequency", 1) == 1
+    sample = sample or (plain and cfg["delay"] == (1 if name == "ddpg" else 2) and cfg["learning_starts"] in (2, 4) and "T" in script)
+    return dict(name=_name(name, script, cfg), part="cadence", routine=name, script=script, cfg=cfg, sample=bool(sample))
 
 
 def cadence_items(tier, seed):
